@@ -8,7 +8,10 @@ DeepARTMAP is also re-fitted in the other mode (fit(X) <-> fit(X, y)) and after
 were re-configured (set_params / attribute assignment, list or ndarray) on streams with exact activation ties
 across >= 3 channels.  A new SimpleARTMAP / ARTMAP / DeepARTMAP built around modules that
 were trained before being wrapped (alone or inside another host, by fit or partial_fit) is trained by one fit and by
-partial_fit batches and compared with the same host over never-used modules.  Tie: the
+partial_fit batches and compared with the same host over never-used modules.  Plotting calls (visualize /
+plot_cluster_bounds / the frames of fit_gif) are read-only operations too: flat estimators through the shared generator
+plotpure.py, SMART / DeepARTMAP hierarchies with >= 3 modules drawn (whole, or one layer / module) between partial_fit
+batches, against one fit on the concatenation.  Tie: the
 Lean folds reproduce fit / partial_fit histories end-to-end (exact kernels)."""
 from __future__ import annotations
 
@@ -24,7 +27,8 @@ from . import e2e
 RULE = ("cases = (family, hyper-parameters, stream, partition / earlier history (DeepARTMAP: in either mode, modules re-assigned; "
         "FusionART: gamma_values re-configured by set_params / assignment, as list / ndarray, >= 3 channels with exact fused ties) "
         "/ hosts (SimpleARTMAP, ARTMAP, DeepARTMAP) over modules trained before being wrapped: alone / in another host, fit / partial_fit "
-        "/ read-only interleaving incl. accessors); all "
+        "/ read-only interleaving incl. accessors and plotting calls (flat estimators; SMART / DeepARTMAP with >= 3 modules drawn between "
+        "partial_fit batches)); all "
         "compositions for n <= 5, random ones beyond; non-trivial when the stream has >= 2 samples and the trained "
         "model has >= 2 categories or a non-trivial map; distinct by hash of (family spec, stream, partition)")
 
@@ -687,6 +691,267 @@ def pretrained_modules(ctx):
             cov.hit("pretrained:some-modules-used-some-new")
 
 
+# ---------------------------------------------------------------- plotting calls inside histories
+#
+# "Interleaving read-only operations anywhere in the history changes nothing": visualize / plot_cluster_bounds (and the frames
+# fit_gif draws) only LOOK at a model.  Oracle, on the implementation alone: (1) the model right after the plotting call is the
+# model right before it; (2) the history with the plotting calls ends in the model of the same history without them — for
+# partial_fit batches that is one fit on the concatenation —, with the same predictions; (3) a fit after the history gives what
+# a fresh estimator gives.  A plotting call that raises is tolerated (several models of the unchanged library cannot be drawn),
+# it still must not move the model.
+
+
+def _mpl():
+    try:
+        import matplotlib
+        matplotlib.use("Agg")
+        import matplotlib.pyplot as plt
+        return plt
+    except Exception:   # noqa
+        return None
+
+
+def _bad_keys(got, want):
+    return sorted(kk for kk in want if not eq_snap(got.get(kk), want[kk]))
+
+
+def plotting_in_flat_histories(ctx):
+    """the shared generator (harness/artv/plotpure.py): elementary modules, DualVigilanceART, TopoART, SimpleARTMAP, ARTMAP trained
+    by fit / partial_fit / fit_gif(small palette), then drawn.  C06's clauses on the estimator afterwards."""
+    from .. import plotpure
+    cov = ctx.cov
+    for sc in plotpure.scenarios(ctx, "C06", quick=24, thorough=240):
+        fam, rows, name = sc.fam, sc.rows, sc.fam.name
+        gif = sc.plot.startswith("fit_gif")
+        if gif and sc.raised is not None:
+            cov.hit("plot:fit_gif-stopped-in-a-frame")      # not a complete training call: nothing to judge
+            continue
+        desc = dict(sc.desc, trained_by=sc.trained_by, state_changed_by_plot=sc.changed[:12], plot_raised=sc.raised)
+        how = "fit" if gif or sc.trained_by == "fit" else "partial_fit"
+        try:
+            twin = fam.make()
+            (fam.fit if how == "fit" else fam.pfit)(twin, rows)
+            want = fam.snap(twin)
+        except Exception as e:
+            cov.hit(f"plot:twin-raised:{name}:{exc_enum(e)}")
+            continue
+        cov.case(("plot", fam.spec, sc.desc["rows"], sc.plot, sc.trained_by), len(rows) >= 2)
+        got = fam.snap(sc.est)
+        if not eq_snap(got, want):
+            ctx.issue("violation", f"{name}:plotting-call-moves-model:{sc.plot.split(':')[0]}",
+                      f"{sc.trained_by} then {sc.plot}: the model differs in {_bad_keys(got, want)} from the model the same training "
+                      f"call gives without drawing (snapshot paths changed by the call: {sc.changed[:6]})", desc)
+        cov.hit("plot:model-after-plotting-compared")
+        # ---- the history goes on: partial_fit of further rows, then a re-fit
+        k = 1 + (len(rows) > 2)
+        if fam.has_pfit:
+            try:
+                fam.pfit(twin, rows.sl(0, k))
+                want2 = fam.snap(twin)
+            except Exception as e:
+                want2 = None
+                cov.hit(f"plot:twin-continuation-raised:{name}:{exc_enum(e)}")
+            if want2 is not None:
+                try:
+                    fam.pfit(sc.est, rows.sl(0, k))
+                    got2 = fam.snap(sc.est)
+                    if not eq_snap(got2, want2):
+                        ctx.issue("violation", f"{name}:plotting-call-changes-later-training",
+                                  f"{sc.trained_by}, {sc.plot}, partial_fit rows 0:{k} differs in {_bad_keys(got2, want2)} from the same "
+                                  "history without the plotting call", dict(desc, then_partial_fit_rows=k))
+                except Exception as e:
+                    ctx.issue("violation", f"{name}.partial_fit:after-plotting-call:{exc_enum(e)}",
+                              f"{sc.trained_by}, {sc.plot}, then partial_fit rows 0:{k} raised {e!r} where the same history without the "
+                              "plotting call succeeds", dict(desc, then_partial_fit_rows=k))
+                cov.hit("plot:continuation-compared")
+        if fam.has_fit:
+            try:
+                fam.fit(twin, rows)
+                want3 = fam.snap(twin)
+            except Exception as e:
+                cov.hit(f"plot:twin-refit-raised:{name}:{exc_enum(e)}")
+                continue
+            try:
+                fam.fit(sc.est, rows)
+                if not eq_snap(fam.snap(sc.est), want3):
+                    ctx.issue("violation", f"{name}:refit-after-plotting-call!=fresh",
+                              f"fit on an estimator whose history holds {sc.plot} differs from the fit of an estimator that was never drawn", desc)
+            except Exception as e:
+                ctx.issue("violation", f"{name}.refit:after-plotting-call:{exc_enum(e)}",
+                          f"fit on an estimator whose history holds {sc.plot} raised {e!r}", desc)
+            cov.hit("plot:refit-compared")
+
+
+HIER_PLOTS = ["visualize:own-labels", "plot_cluster_bounds", "visualize:short-colors", "visualize-twice", "visualize:label-copy"]
+
+
+def _hier_build(r, name, n, min_modules):
+    """-> (fam, rows) with >= min_modules modules; SMART over two (sometimes three) features, so that it can be drawn"""
+    import random
+    for _ in range(80):
+        fam, rows = families.build(random.Random(r.random()), name, n)
+        if name == "SMART":
+            d = fam.groups[0][1]
+            if len(fam.spec["rho_values"]) >= min_modules and (d == 2 or (d == 3 and r.random() < 0.2)):
+                return fam, rows
+        elif len(fam.spec["modules"]) >= min_modules:
+            return fam, rows
+    return None
+
+
+def _hier_draw(plt, r, name, est, rows, upto, how):
+    """one plotting call on a hierarchy that has seen rows 0:upto -> (what was drawn, None | exception name).  SMART draws
+    itself; DeepARTMAP has no plotting method of its own, what can be drawn are its layers (SimpleARTMAP / ARTMAP objects) and
+    its modules, each over its own channel and with its own labels_."""
+    if name == "SMART":
+        target, what, X = est, "SMART", rows.arrs["X"][:upto]
+    else:
+        cands = [("layer", j, L) for j, L in enumerate(est.layers)] + [("module", j, m) for j, m in enumerate(est.modules)]
+        two = [c for c in cands if rows.arrs["Xs"][est.modules.index(c[2].module_a if c[0] == "layer" else c[2])].shape[1]
+               in (2, 4)]
+        kind, j, target = r.choice(two if two and r.random() < 0.8 else cands)
+        ch = est.modules.index(target.module_a if kind == "layer" else target)
+        what, X = f"{kind}[{j}]:{type(target).__name__}", rows.arrs["Xs"][ch][:upto]
+    raised = None
+    fig, ax = plt.subplots()
+    try:
+        with quiet():
+            y = target.labels_
+            if how == "visualize:label-copy":
+                y = np.array(y)
+            ncat = max([len(getattr(m, "W", [])) for m in est.modules] + [int(np.max(np.asarray(y))) + 1 if len(np.asarray(y)) else 1])
+            if how == "plot_cluster_bounds":
+                target.plot_cluster_bounds(ax, [(0.1 * (c % 10), 0.5, 0.5, 1.0) for c in range(ncat + 12)])
+            elif how == "visualize:short-colors":
+                target.visualize(X, y, ax=ax, colors=["r", "g"][: r.randint(1, 2)])
+            else:
+                target.visualize(X, y, ax=ax)
+                if how == "visualize-twice":
+                    target.visualize(X, y, ax=ax, colors=[(0.1 * (c % 10), 0.5, 0.5, 1.0) for c in range(ncat + 12)])
+    except Exception as e:      # noqa
+        raised = exc_enum(e)
+    finally:
+        plt.close("all")
+    return what, raised
+
+
+def plotting_in_hierarchies(ctx):
+    """SMART and DeepARTMAP (with and without class labels) with THREE or more modules (a few with two): partial_fit batches
+    with the hierarchy — or one of its layers / modules — drawn between them and after the last one, against one fit on the
+    concatenation"""
+    plt = _mpl()
+    cov = ctx.cov
+    if plt is None:
+        cov.hit("plot:matplotlib-missing")
+        return
+    nmax = ctx.scale(12, 30)
+    for i in range(ctx.scale(48, 600)):
+        r = gen.rng_for(ctx.seed, "C06-plot-hier", i)
+        name = ["SMART", "SMART", "DeepARTMAP-unsup", "SMART", "DeepARTMAP-sup"][i % 5]
+        b = _hier_build(r, name, r.randint(3, nmax), 2 if i % 8 == 7 else 3)
+        if b is None:
+            cov.hit(f"plot-hier:no-instance:{name}")
+            continue
+        fam, rows = b
+        n = len(rows)
+        parts = gen.compositions(r, n)
+        if len(parts) == 1 and n >= 2 and r.random() < 0.8:
+            a = r.randint(1, n - 1)
+            parts = [a, n - a]
+        steps = [(int(a), int(a + p)) for a, p in zip(np.cumsum([0] + parts[:-1]).tolist(), parts)]
+        # where the drawing happens: after some batch before the last one (if there is one), and sometimes after others too
+        must = r.randrange(len(steps) - 1) if len(steps) >= 2 else 0
+        draws = {j: HIER_PLOTS[(i + j) % len(HIER_PLOTS)] for j in range(len(steps)) if j == must or r.random() < 0.3}
+        desc = dict(fam.describe(), rows=rows.tolist(), partition=parts,
+                    plots=[dict(after_rows=steps[j][1], call=h) for j, h in sorted(draws.items())])
+
+        def observe(est):
+            s = fam.snap(est)
+            try:
+                s["predict"] = [np.asarray(p).copy() for p in fam.predict(est, rows)]
+            except Exception as e:      # predict failures are C04/C08 business, but they must be the same on both sides
+                s["predict"] = "raised:" + exc_enum(e)
+            return s
+        try:
+            ref = fam.make()
+            fam.fit(ref, rows)
+            want = observe(ref)
+        except Exception as e:
+            cov.hit(f"plot-hier:ref-raised:{name}:{exc_enum(e)}")
+            continue
+        levels = len(ref.modules)
+        ncats = [len(m.W) for m in ref.modules]
+        # non-trivial: some level above the finest one merges categories (a label map that is not a bijection onto itself)
+        cov.case(("plot-hier", name, fam.spec, desc["rows"], parts, sorted(draws.items())), n >= 2 and len(set(ncats)) >= 2)
+        est, moved, drawn = fam.make(), None, []
+        try:
+            for j, (a, b_) in enumerate(steps):
+                fam.pfit(est, rows.sl(a, b_))
+                if j not in draws:
+                    continue
+                before = fam.snap(est)
+                what, raised = _hier_draw(plt, r, name, est, rows, b_, draws[j])
+                drawn.append(dict(after_rows=b_, call=draws[j], drawn=what, raised=raised))
+                cov.hit(f"plot-hier:{name}:{draws[j]}" + (f":raised:{raised}" if raised else ""))
+                if raised is None:
+                    cov.hit(f"plot-hier:drawn:{what.split('[')[0]}:{levels if levels < 4 else '4+'}-modules")
+                after = fam.snap(est)
+                if moved is None and not eq_snap(before, after):
+                    moved = (drawn[-1], _bad_keys(after, before))
+        except Exception as e:
+            if moved is None:
+                # (the partition itself raising is section (a)'s business: look at the same history without the drawing)
+                try:
+                    twin = fam.make()
+                    for (a, b_) in steps:
+                        fam.pfit(twin, rows.sl(a, b_))
+                except Exception:
+                    cov.hit(f"plot-hier:history-raised-without-plots-too:{name}:{exc_enum(e)}")
+                    continue
+                ctx.issue("violation", f"{name}.partial_fit:after-plotting-call:{exc_enum(e)}",
+                          f"{levels} modules, partition {parts}: partial_fit after {drawn[-1:] or 'the plotting calls'} raised {e!r} "
+                          "where the same history without the plotting calls succeeds", dict(desc, drawn=drawn))
+                continue
+        desc = dict(desc, drawn=drawn)
+        if moved is not None:
+            ctx.issue("violation", f"{name}:plotting-call-moves-model:{moved[0]['call'].split(':')[0]}",
+                      f"{levels} modules ({ncats} categories after the whole stream): after partial_fit of rows 0:{moved[0]['after_rows']} "
+                      f"the call {moved[0]['call']} on {moved[0]['drawn']} changed {moved[1]} (weights, labels or label maps)", desc)
+        try:
+            got = observe(est)
+        except Exception as e:
+            cov.hit(f"plot-hier:observe-raised:{name}:{exc_enum(e)}")
+            continue
+        if not eq_snap(got, want):
+            # partition == fit is section (a)'s statement; here: the same partition without the plotting calls
+            try:
+                twin = fam.make()
+                for (a, b_) in steps:
+                    fam.pfit(twin, rows.sl(a, b_))
+                want_t = observe(twin)
+            except Exception:
+                want_t = None
+            if want_t is not None and not eq_snap(got, want_t):
+                ctx.issue("violation", f"{name}:partial_fit,plot,partial_fit!=fit",
+                          f"{levels} modules: partition {parts} of {n} samples with {[d_['call'] + ' on ' + d_['drawn'] for d_ in drawn]} "
+                          f"between the batches differs in {_bad_keys(got, want)} from one fit on the concatenation, and from the same "
+                          "batches without the plotting calls", desc)
+        # ---- fit on the used (and drawn) estimator == fresh
+        try:
+            fam.fit(est, rows)
+            if not eq_snap(observe(est), want):
+                ctx.issue("violation", f"{name}:refit-after-plotting-call!=fresh",
+                          f"{levels} modules: fit on a hierarchy that was drawn during its earlier history differs from a fresh fit", desc)
+        except Exception as e:
+            ctx.issue("violation", f"{name}.refit:after-plotting-call:{exc_enum(e)}",
+                      f"{levels} modules: fit on a hierarchy that was drawn during its earlier history raised {e!r}", desc)
+        cov.hit(f"plot-hier:compared:{name}")
+        if len(steps) >= 2:
+            cov.hit("plot-hier:partial_fit,plot,partial_fit-vs-fit")
+        if levels >= 3:
+            cov.hit("plot-hier:three-or-more-modules")
+
+
 def prepare(ctx):
     """Translator tie (see gen_tie.py): the statements of the BaseART methods are regenerated from the source and the
     theorems about the generated definitions are re-checked"""
@@ -853,6 +1118,8 @@ def run(ctx):
     deep_refits(ctx)
     reconfigured_refits(ctx)
     pretrained_modules(ctx)
+    plotting_in_flat_histories(ctx)
+    plotting_in_hierarchies(ctx)
     long_streams(ctx)
     # ---- tie: Lean folds vs implementation (fit, partial_fit partitions, re-fit)
     e2e.base_histories(ctx, "C06", ctx.scale(150, 3000), ctx.scale(20, 80), fields=("labels", "W"))
